@@ -52,6 +52,13 @@ def meta_of(step, t, sent_has_delay=True):
 
 class C10(InterpProp):
     id = 'C10'
+    # observables compared with the model (see InterpProp.normalize)
+    cmp_eff = ('meta',)
+    cmp_step = ()
+    cmp_slot = ('config', 'final')
+    cmp_callbacks = False
+    cmp_err = 'full'
+    cmp_time = False
     quick_cases = 500
     thorough_cases = 15000
     n_ops = 24
